@@ -1012,7 +1012,7 @@ func scanNumber(l *lexer) (typ itemType, ok bool) {
 			// No signs for hexadecimals.
 			return
 		}
-		l.acceptRun("0x")
+		l.pos += 2 // the "0x" prefix, and nothing more: "0x0" has a digit after it
 		if !l.acceptRun(hexDigits) {
 			// Requires at least one digit.
 			return
